@@ -1,7 +1,8 @@
 SPECIFICATION Spec
 CONSTANTS
-  Templates = {"brush", "ents", "nest", "nestplain", "angles", "anglesvar", "pitchsound", "unknownvar"}
-  MultiTemplates = {"nest", "nestplain", "ents"}
+  Templates = {"hidsolid", "brush", "ents", "nest", "nestplain", "angles", "anglesvar", "pitchsound", "unknownvar"}
+  MultiTemplates = {"nest", "nestplain", "ents", "hidsolid"}
+  VisTemplates = {"hidsolid", "brush", "ents", "nest"}
   Origins = {2}
   Tables = {0, 1, 2, 3}
   Triples = FALSE
